@@ -1411,6 +1411,157 @@ fn run_freq_direct(ctx: &mut Ctx, rep: &mut Report, index: &mut u64) {
 }
 
 // ---------------------------------------------------------------------------
+// matrices cut down with DenseMatrix::resize before being wrapped; other lane counts
+// ---------------------------------------------------------------------------
+
+/// rc of a Count / Scoring matrix built from a DenseMatrix that held `extra` more rows and was cut down with `resize`.
+fn check_trimmed(rows: &[Vec<f32>], extra: usize, fails: &mut Fails) {
+    use lightmotif::dense::DenseMatrix;
+    use lightmotif::num::U5;
+    let k = 5usize;
+    let mut all: Vec<Vec<f32>> = rows.to_vec();
+    for e in 0..extra {
+        all.push((0..k).map(|j| 100.0 + (e * k + j) as f32).collect());
+    }
+    let want = pm::ref_rc(rows);
+    // scoring matrix
+    match catch(|| {
+        let mut d = DenseMatrix::<f32, U5>::from_rows(all.iter().map(|r| r.as_slice()).collect::<Vec<_>>());
+        d.resize(rows.len());
+        let m = ScoringMatrix::<Dna>::new(Background::uniform(), d);
+        let r = m.reverse_complement();
+        (pm::cells_score(&r), pm::cells_score(&r.reverse_complement()))
+    }) {
+        Err(p) => push(fails, format!("trimmed scoring matrix panic {}", panic_class(&p)), format!("reverse_complement of a scoring matrix cut down from {} to {} rows panicked: {}", all.len(), rows.len(), p)),
+        Ok((r, rr)) => {
+            if bits(&r) != bits(&want) {
+                push(fails, "trimmed scoring rc(m) differs from the definition".into(), format!("matrix {:?} (cut down from {} rows): rc(m) = {:?}", rows, all.len(), r));
+            } else if bits(&rr) != bits(&rows.to_vec()) {
+                push(fails, "trimmed scoring rc(rc(m)) != m".into(), format!("matrix {:?} (cut down from {} rows): rc(rc(m)) = {:?}", rows, all.len(), rr));
+            }
+        }
+    }
+    // count matrix (cells as counts)
+    let counts: Vec<Vec<u32>> = all.iter().map(|r| r.iter().map(|x| x.abs() as u32).collect()).collect();
+    let wantc = pm::ref_rc(&counts[..rows.len()].to_vec());
+    match catch(|| {
+        let mut d = DenseMatrix::<u32, U5>::from_rows(counts.iter().map(|r| r.as_slice()).collect::<Vec<_>>());
+        d.resize(rows.len());
+        let m = CountMatrix::<Dna>::new(d).map_err(|_| ()).expect("count matrix");
+        let r = m.reverse_complement();
+        r.matrix().iter().map(|x| x.to_vec()).collect::<Vec<Vec<u32>>>()
+    }) {
+        Err(p) => push(fails, format!("trimmed count matrix panic {}", panic_class(&p)), format!("reverse_complement of a count matrix cut down from {} to {} rows panicked: {}", all.len(), rows.len(), p)),
+        Ok(r) => {
+            if r != wantc {
+                push(fails, "trimmed count rc(m) differs from the definition".into(), format!("counts {:?} (cut down from {} rows): rc(m) = {:?}", &counts[..rows.len()], all.len(), r));
+            }
+        }
+    }
+}
+
+/// The mirror law under another lane count, for one pipeline: scores of m on s at i == scores of rc(m) on rc(s) at L-M-i
+/// (integer matrices: exact).
+fn mirror_lanes<C, P>(p: &P, m: &ScoringMatrix<Dna>, rc: &ScoringMatrix<Dna>, seq: &[u8]) -> Option<String>
+where
+    C: lightmotif::num::PositiveLength,
+    P: Score<f32, Dna, C>,
+{
+    let g = Pipeline::<Dna, Generic>::generic();
+    let fwd = pm::to_symbols::<Dna>(seq);
+    let rev = pm::to_symbols::<Dna>(&pm::ref_rc_seq(seq));
+    let mut s: StripedSequence<Dna, C> = g.stripe(&fwd);
+    let mut r: StripedSequence<Dna, C> = g.stripe(&rev);
+    s.configure(m);
+    r.configure(rc);
+    let a = p.score(m, &s).unstripe().to_vec();
+    let b = p.score(rc, &r).unstripe().to_vec();
+    let l = seq.len();
+    let w = m.len();
+    let valid = if l >= w { l - w + 1 } else { 0 };
+    if a.len() != valid || b.len() != valid {
+        return Some(format!("L={} M={}: {} / {} scores, expected {}", l, w, a.len(), b.len(), valid));
+    }
+    (0..valid).find(|&i| !same_class(a[i], b[valid - 1 - i])).map(|i| format!("m.score(s)[{}] = {:?} but rc(m).score(rc(s))[{}] = {:?} (L={}, M={})", i, a[i], valid - 1 - i, b[valid - 1 - i], l, w))
+}
+
+fn check_lanes(rows: &[Vec<f32>], seq: &[u8], fails: &mut Fails) {
+    use lightmotif::num::{U16, U48, U64};
+    use lightmotif::pli::platform::Sse2;
+    let m = ScoringMatrix::<Dna>::new(Background::uniform(), pm::dense_f32::<Dna>(rows));
+    let rc = match catch(|| m.reverse_complement()) {
+        Ok(r) => r,
+        Err(_) => return, // reported by the matrix-level spaces
+    };
+    let g = Pipeline::<Dna, Generic>::generic();
+    let sse = Pipeline::<Dna, Sse2>::sse2();
+    let mut run = |name: &str, res: Result<Option<String>, String>| match res {
+        Ok(None) => {}
+        Ok(Some(msg)) => push(fails, format!("lanes {} mirrored score differs", name), msg),
+        Err(p) => push(fails, format!("lanes {} panic {}", name, panic_class(&p)), p),
+    };
+    run("generic/U16", catch(|| mirror_lanes::<U16, _>(&g, &m, &rc, seq)));
+    run("generic/U48", catch(|| mirror_lanes::<U48, _>(&g, &m, &rc, seq)));
+    run("generic/U64", catch(|| mirror_lanes::<U64, _>(&g, &m, &rc, seq)));
+    if let Ok(sse) = sse {
+        run("sse2/U16", catch(|| mirror_lanes::<U16, _>(&sse, &m, &rc, seq)));
+        run("sse2/U48", catch(|| mirror_lanes::<U48, _>(&sse, &m, &rc, seq)));
+        run("sse2/U64", catch(|| mirror_lanes::<U64, _>(&sse, &m, &rc, seq)));
+    }
+}
+
+fn run_trimmed_and_lanes(ctx: &mut Ctx, rep: &mut Report, index: &mut u64) {
+    let ir = int_rows();
+    if ctx.wants("trimmed") {
+        rep.space(
+            "trimmed",
+            "scoring and count matrices built from a DenseMatrix that held 1 / 3 more rows and was cut down with DenseMatrix::resize before ScoringMatrix::new / CountMatrix::new: all integer matrices of width 1..=2 from the mirror row menu; \
+             rc(m) == rows reversed + columns complemented, rc(rc(m)) == m, no panic",
+        );
+        for idx_rows in pm::matrices_upto(ir.len(), 2) {
+            for extra in [1usize, 3] {
+                let idx = *index;
+                *index += 1;
+                if !ctx.mine(idx) {
+                    continue;
+                }
+                let rows: Vec<Vec<f32>> = idx_rows.iter().map(|&i| ir[i].clone()).collect();
+                let mut fails = Fails::new();
+                check_trimmed(&rows, extra, &mut fails);
+                rep.eval_distinct(true);
+                for (sig, msg) in fails {
+                    rep.violation(format!("C10 {}", sig), msg, || json!({"kind": "trimmed", "rows": pm::matrix_to_json(&rows), "extra": extra}));
+                }
+            }
+        }
+    }
+    if ctx.wants("lanes") {
+        rep.space(
+            "lanes",
+            "the mirror law under the other lane counts the generic and SSE2 pipelines accept (16, 48, 64 columns): all integer matrices of width 1..=2 (thorough 3) from the mirror row menu x sequences of 1 / 47 / 48 / 49 / 100 / 200 symbols (wildcard included); exact comparison",
+        );
+        let maxw = if ctx.quick() { 2 } else { 3 };
+        for idx_rows in pm::matrices_upto(ir.len(), maxw) {
+            let idx = *index;
+            *index += 1;
+            if !ctx.mine(idx) {
+                continue;
+            }
+            let rows: Vec<Vec<f32>> = idx_rows.iter().map(|&i| ir[i].clone()).collect();
+            for &l in &[1usize, 47, 48, 49, 100, 200] {
+                let seq: Vec<u8> = (0..l).map(|i| ((i * 7 + i / 5 + (i % 11 == 4) as usize * 3) % 5) as u8).collect();
+                let mut fails = Fails::new();
+                check_lanes(&rows, &seq, &mut fails);
+                rep.eval_distinct(l >= rows.len());
+                for (sig, msg) in fails {
+                    rep.violation(format!("C10 {}", sig), msg, || json!({"kind": "lanes", "rows": pm::matrix_to_json(&rows), "sequence": seq}));
+                }
+            }
+        }
+    }
+}
+
+// ---------------------------------------------------------------------------
 // entry points
 // ---------------------------------------------------------------------------
 
@@ -1428,6 +1579,9 @@ pub fn run(ctx: &mut Ctx, rep: &mut Report) {
     }
     if ctx.wants("mirror_nonfinite") && !ctx.out_of_time() {
         run_mirror_nonfinite(ctx, rep, &mut index);
+    }
+    if !ctx.out_of_time() {
+        run_trimmed_and_lanes(ctx, rep, &mut index);
     }
 }
 
@@ -1500,6 +1654,23 @@ pub fn replay(_ctx: &mut Ctx, rep: &mut Report, case: &Value) {
             let prepared = prepare_nonfinite(vec![spec]);
             if !prepared.is_empty() {
                 nonfinite_row(pl, &seq, &prepared, 2, rep);
+            }
+        }
+        "trimmed" => {
+            let rows = pm::matrix_from_json(&case["rows"]);
+            let mut fails = Fails::new();
+            check_trimmed(&rows, case["extra"].as_u64().unwrap_or(1) as usize, &mut fails);
+            for (sig, msg) in fails {
+                rep.violation(format!("C10 {}", sig), msg, || case.clone());
+            }
+        }
+        "lanes" => {
+            let rows = pm::matrix_from_json(&case["rows"]);
+            let seq = pm::ranks_from_json(&case["sequence"]);
+            let mut fails = Fails::new();
+            check_lanes(&rows, &seq, &mut fails);
+            for (sig, msg) in fails {
+                rep.violation(format!("C10 {}", sig), msg, || case.clone());
             }
         }
         k => panic!("C10 replay: unknown case kind {}", k),
